@@ -396,7 +396,7 @@ func describeOp(op world.Op, info pktInfo, o world.OpObs) string {
 		var b strings.Builder
 		if op.Pkt.ICS != nil {
 			fmt.Fprintf(&b, "recv[%s] %s/%s->%s/%s denom=%q amount=%q receiver=%q memo=%s", info.shape, op.Pkt.SrcPort, op.Pkt.SrcChan, op.Pkt.DstPort, op.Pkt.DstChan,
-				op.Pkt.ICS.Denom, op.Pkt.ICS.Amount, op.Pkt.ICS.Receiver, op.Pkt.ICS.Memo)
+				op.Pkt.ICS.Denom, op.Pkt.ICS.Amount, op.Pkt.ICS.Receiver, clipMemo(op.Pkt.ICS.Memo))
 		} else {
 			fmt.Fprintf(&b, "recv[%s] raw data %q", info.shape, op.Pkt.Raw)
 		}
@@ -1295,4 +1295,12 @@ func clip(s string, n int) string {
 		return s[:n] + "...\n"
 	}
 	return s
+}
+
+// clipMemo shortens a very long memo in descriptions (its length is kept).
+func clipMemo(m string) string {
+	if len(m) > 3000 {
+		return fmt.Sprintf("%s...(%d bytes in all)", m[:200], len(m))
+	}
+	return m
 }
